@@ -20,7 +20,7 @@ RTOL = 1e-9
 _U = {}
 
 REAL_UNITS = {"L": ["m", "km", "cm", "inch"], "T": ["s", "ms", "min", "hr"], "iL": ["1/m", "1/km", "1/cm", "1/inch"], "iT": ["Hz", "kHz", "1/min", "MHz"],
-              "Th": ["K", "degC", "degF", "R"]}
+              "Th": ["K", "degC", "degF", "R"], "Tm": ["K", "mK", "R", "delta_degF", "delta_degC"]}
 # registries in which one spelling has different values (MC_C07: QK, RegCase, RegDCase)
 REG_SYMBOL = {1: {"L": "ql", "T": "qt"}, 2: {"L": "ql", "T": "qt"}, 3: {"L": "ft", "T": "min"}, 4: {"L": "ft", "T": "min"}}
 REG_DYADIC = {1: {"ql": 3, "qt": -2}, 2: {"ql": 5, "qt": 1}}
@@ -142,6 +142,8 @@ def _unit_reg(d, j):
 
 def _unit(u, real):
     d, k = u[0], int(u[1])
+    if d == "N":  # a bare operand: no unit (only used to build out= buffers)
+        return _U["unyt"].Unit("dimensionless")
     if real:
         return _U["unyt"].Unit(REAL_UNITS[d][k])
     name = {"L": "xl", "T": "xt", "iL": "xil", "iT": "xit"}[d] + ("p" if k >= 0 else "n") + str(abs(k))
@@ -167,6 +169,12 @@ class Ctx:
         np = self.np
         u = self.units[i]
         a = np.array(phys, dtype=float)
+        bm = self.case.get("bm", "-")
+        if bm != "-" and i < len(bm) and bm[i] == "b":
+            # operand given bare: a constant of the call, the same numbers in both runs
+            if self.case.get("bk") == "l":
+                return a.tolist()
+            return float(a) if a.ndim == 0 else a
         if self.dt == "i8":
             a = a * 2.0
         if self.real:
@@ -267,9 +275,16 @@ def _inplace(fn):
     def run(c):
         tgt = c.o(0)
         fn(c, tgt)
+        if not isinstance(tgt, _U["ua"]):  # the caller's plain target cannot carry a unit: nothing is demanded of it
+            return (_Raw(tgt),)
         return (tgt,)
 
     return run
+
+
+class _Raw:
+    def __init__(self, x):
+        self.x = x
 
 
 def _tensor4(c, i):
@@ -588,6 +603,8 @@ def _lg(units):
 
 def _proj(x):
     np = _U["np"]
+    if isinstance(x, _Raw):
+        return {"kind": "rawbuf", "cls": type(x.x).__name__[:30], "dk": "", "dims": [0, 0], "lg": 0, "odd": False, "nd": 0, "sz": 0}
     if x is None:
         return {"kind": "none", "cls": "NoneType", "dk": "", "dims": [0, 0], "lg": 0, "odd": False, "nd": 0, "sz": 0}
     if isinstance(x, _U["ua"]):
@@ -616,6 +633,8 @@ def _phys(x):
 def _cmp(x, y, px, py, novals, unord=False):
     np = _U["np"]
     if px["kind"] in ("none",) and py["kind"] == "none":
+        return {"ex": True, "tol": True, "shp": True}
+    if px["kind"] == "rawbuf" or py["kind"] == "rawbuf":
         return {"ex": True, "tol": True, "shp": True}
     if px["kind"] == "text" or py["kind"] == "text" or px["kind"] == "other" or py["kind"] == "other":
         same = (px["kind"] == py["kind"]) and (str(x) == str(y))
